@@ -339,8 +339,12 @@ impl Check for RibHistories {
 
     fn generate(&self, seed: u64, thorough: bool) -> Json {
         let mut rng = Rng::new(seed);
-        let n_peers = rng.range(2, 4) as usize;
-        let n_pfx = rng.range(2, if thorough { 8 } else { 5 });
+        // swarm: a third of the runs is "tie-heavy": few prefixes, peers of one role with distinct
+        // router ids, and one attribute set per prefix reused by most inserts, so that paths tie down
+        // to the last steps of the decision process and positions inside the list matter
+        let tie_heavy = rng.chance(1, 3);
+        let n_peers = if tie_heavy { rng.range(3, 4) as usize } else { rng.range(2, 4) as usize };
+        let n_pfx = if tie_heavy { rng.range(1, 2) } else { rng.range(2, if thorough { 8 } else { 5 }) };
         let n_nh = rng.range(1, 3);
         let fams: Vec<usize> = match rng.below(4) {
             0 => vec![0],
@@ -359,9 +363,9 @@ impl Check for RibHistories {
         let en_defer = rng.chance(1, 5);
         let peers: Vec<Json> = (0..n_peers)
             .map(|i| {
-                let role = rng.below(5);
+                let role = if tie_heavy { 0 } else { rng.below(5) };
                 let asn = if role == 1 || role == 2 { 65000u64 } else { 65001 + i as u64 };
-                let rid = *rng.pick(&[0x0101_0101u64, 0x0202_0202, 0x0303_0303, 0x0101_0101 + i as u64]);
+                let rid = if tie_heavy { 0x0101_0101u64 * (i as u64 + 1) } else { *rng.pick(&[0x0101_0101u64, 0x0202_0202, 0x0303_0303, 0x0101_0101 + i as u64]) };
                 jarr![role, asn, rid]
             })
             .collect();
@@ -378,6 +382,7 @@ impl Check for RibHistories {
         let defer: Vec<Json> = if en_defer { fams.iter().filter(|_| rng.coin()).map(|f| Json::from(*f)).collect() } else { vec![] };
         let n_ops = rng.range(3, if thorough { 70 } else { 40 });
         let mut ops = Vec::new();
+        let mut base_specs: std::collections::BTreeMap<(usize, u64), Json> = std::collections::BTreeMap::new();
         let w = [
             40,                              // ins
             12,                              // rm
@@ -396,9 +401,16 @@ impl Check for RibHistories {
             match rng.weighted(&w) {
                 0 => {
                     let pid = if en_addpath { rng.below(3) } else { 0 };
-                    let spec = gen_aspec(&mut rng, fam, long_paths);
+                    let pfx = rng.below(n_pfx);
+                    let fresh = gen_aspec(&mut rng, fam, long_paths).to_json();
+                    let spec = if tie_heavy {
+                        let base = base_specs.entry((fam, pfx)).or_insert(fresh.clone()).clone();
+                        if rng.chance(4, 5) { base } else { fresh }
+                    } else {
+                        fresh
+                    };
                     let filtered = en_filter && rng.chance(1, 5);
-                    ops.push(jarr!["ins", peer, fam, rng.below(n_pfx), pid, rng.below(n_nh), spec.to_json(), filtered]);
+                    ops.push(jarr!["ins", peer, fam, pfx, pid, rng.below(n_nh), spec, filtered]);
                 }
                 1 => ops.push(jarr!["rm", peer, fam, rng.below(n_pfx), if en_addpath { rng.below(3) } else { 0 }]),
                 2 => ops.push(jarr!["drop", peer, fam]),
